@@ -33,7 +33,7 @@ def main():
     args = [a for a in sys.argv[1:] if not a.startswith('--')]
     allprops = '--all-props' in sys.argv
     jobs = []
-    sd = f'{V}/seeded'
+    sd = os.environ.get('AEIC_VERIF_SEED_DIR', f'{V}/seeded')
     for sid in sorted(os.listdir(sd)) if os.path.isdir(sd) else []:
         if args and sid not in args:
             continue
